@@ -108,6 +108,12 @@ CLAIMED = {
          "TLC enumerates the run schedules (repeats, every permutation of up to 3 files, one and two print cycles, compile-the-printed-text); each run "
          "is a separate asn1c process under ASLR; the recorded digests are validated by TLC against the history.",
          "TLA+ history-variable function-consistency monitor + TLC-enumerated run schedules + trace validation"),
+ "C20": ("model_checking", "7 C20",
+         "MC_Tlv.tla defines untyped TLV forests, their serialisation Ser and the fields Fields(forest) that `unber -p` must print (invariant "
+         "FieldsSound relates them); TLC enumerates the forests and the truncations / byte substitutions of their octets; ASan+UBSan builds of unber "
+         "and enber from the working tree are run on each; TLC validates the printed fields, the enber round trip and the exit-with-diagnostic "
+         "contract on damaged input.",
+         "TLA+ TLV forest model + TLC-enumerated forests and mutants + trace validation of the tools (sanitizer build)"),
 }
 
 checks = []
